@@ -235,5 +235,11 @@ func (f *Flat) loopHead(rs *ast.RangeStmt) int {
 			return id
 		}
 	}
+	// a loop of a spliced-in helper: the entry node of its block was copied with the helper's graph
+	for _, n := range f.Nodes {
+		if n.Ast == nil && n.Block != nil && n.Block.Kind == cfg.KindRangeLoop && n.Block.Stmt == rs {
+			return n.ID
+		}
+	}
 	return -1
 }
